@@ -53,6 +53,9 @@ type Case struct {
 	Steps     [][]interface{} `json:"steps"`
 	Hook      bool            `json:"hook"` // the case needs the hooks
 	Pool      bool            `json:"pool"` // real service: Handler.Pool is a small worker pool (2 workers, queue of 8)
+	// LateReadErrMs > 0 (tcp, unix): the client's connections report READ errors that many milliseconds late
+	// (an environment in which the reader notices a closed connection only after a while)
+	LateReadErrMs int `json:"late_read_err_ms,omitempty"`
 	// reverse
 	Rev *RevCase `json:"rev,omitempty"`
 }
@@ -829,7 +832,13 @@ func Run(c *Case) *Obs {
 	client := rpc.NewClient(url)
 	client.Timeout = 10 * time.Second
 	var opened, closed int32
-	rpc.SocketTransport(client).OnConnect = func(c net.Conn) net.Conn { atomic.AddInt32(&opened, 1); return c }
+	rpc.SocketTransport(client).OnConnect = func(nc net.Conn) net.Conn {
+		atomic.AddInt32(&opened, 1)
+		if c.LateReadErrMs > 0 {
+			return &lateErrConn{Conn: nc, d: time.Duration(c.LateReadErrMs) * time.Millisecond}
+		}
+		return nc
+	}
 	rpc.SocketTransport(client).OnClose = func(net.Conn) { atomic.AddInt32(&closed, 1) }
 	rpc.UDPTransport(client).OnConnect = func(c net.Conn) net.Conn { atomic.AddInt32(&opened, 1); return c }
 	rpc.UDPTransport(client).OnClose = func(net.Conn) { atomic.AddInt32(&closed, 1) }
@@ -932,6 +941,12 @@ func Run(c *Case) *Obs {
 		switch op {
 		case "call": // ["call", k, timeout_ms (0 default, -1 none), service delay ms]
 			startCall(num(arg(1)), num(arg(2)), num(arg(3)), nil)
+		case "call_big": // ["call_big", k, size]: a request padded to size bytes (a request that does not fit the transport)
+			pl := payload(c.ID, num(arg(1)), 0)
+			if n := num(arg(2)); n > len(pl) {
+				pl = append(pl, bytes.Repeat([]byte("."), n-len(pl))...)
+			}
+			startCall(num(arg(1)), 0, 0, pl)
 		case "await_ret": // ["await_ret", k, ms]
 			ok := waitRet(num(arg(1)), num(arg(2)))
 			e := ev("await-ret")
@@ -998,6 +1013,23 @@ func Run(c *Case) *Obs {
 				p.sendReply(r.conn, r.index, append([]byte("R:"), r.body...), r.addr, num(arg(1)), "peer-send")
 				if op == "reply_dup" {
 					p.sendReply(r.conn, r.index, append([]byte("R:"), r.body...), r.addr, num(arg(1)), "peer-send")
+				}
+			}
+		case "peer_text": // ["peer_text", k]: websocket only - a TEXT frame that starts with the index of caller k's pending request
+			if p != nil && p.kind == "ws" {
+				p.mu.Lock()
+				r, ok := p.reqs[num(arg(1))]
+				var c *peerConn
+				if ok && r.conn >= 0 && r.conn < len(p.conns) {
+					c = p.conns[r.conn]
+				}
+				p.mu.Unlock()
+				if c != nil {
+					raw := []byte{byte(r.index >> 24), byte(r.index >> 16), byte(r.index >> 8), byte(r.index)}
+					raw = append(raw, []byte("TEXT:not-a-response")...)
+					c.wm.Lock()
+					_ = c.w.WriteMessage(websocket.TextMessage, raw)
+					c.wm.Unlock()
 				}
 			}
 		case "stray": // ["stray", index]
@@ -1159,6 +1191,20 @@ func unhex(s string) []byte {
 }
 
 // MainLoop is the body of both executors.
+// lateErrConn reports read errors late.
+type lateErrConn struct {
+	net.Conn
+	d time.Duration
+}
+
+func (l *lateErrConn) Read(b []byte) (int, error) {
+	n, err := l.Conn.Read(b)
+	if err != nil {
+		time.Sleep(l.d)
+	}
+	return n, err
+}
+
 func MainLoop(line []byte, out *json.Encoder) error {
 	var c Case
 	if err := json.Unmarshal(line, &c); err != nil {
